@@ -20,7 +20,7 @@
    readerr <k>                                        ReadFrom on socket k fails
    sleep <ms> <g1/g2/...>                             per tick in the interval: session ids in the order closed ("." none)
    connlost <order>                                   ReceiveMessage fails; ids in the order cleanup closed them
-   Output: events | tbl=<sid@last#cachelen,…> open=<k,…> loops=<n> rl=<pc> sw=<pc>                                -/
+   Output: events (without CheckUDP calls) | tbl=<sid@last,…> open=<k,…> loops=<n> rl=<pc> sw=<pc>                                -/
 import Hy.Gen.Core
 import Hy.Model.UdpSession
 import Hy.Drv.Util
@@ -66,7 +66,7 @@ def insertNat (x : Nat × String) : List (Nat × String) → List (Nat × String
 def showTbl (s : St) : String :=
   let rows := (List.range s.nEnt).filterMap (fun i =>
     match s.ent i with
-    | some e => if s.tbl e.sid == some i then some (e.sid, s!"{e.sid}@{e.last}#{e.acl.cache.length}") else none
+    | some e => if s.tbl e.sid == some i then some (e.sid, s!"{e.sid}@{e.last}") else none
     | none => none)
   let sorted := rows.foldl (fun acc x => insertNat x acc) []
   if sorted.isEmpty then "." else ",".intercalate (sorted.map (·.2))
@@ -111,7 +111,8 @@ def settle (d : DS) : DS :=
 
 /-- print and clear the event log -/
 def flush (d : DS) : DS × String :=
-  let es := d.s.evs.reverse
+  -- CheckUDP calls are not printed: whether and when the policy is consulted is C08's (driver udpacl)
+  let es := d.s.evs.reverse.filter (fun e => match e with | .check _ _ => false | _ => true)
   let txt := if es.isEmpty then "-" else " ".intercalate (es.map showEv)
   ({ d with s := { d.s with evs := [] } }, txt ++ " | " ++ summary d.s)
 
